@@ -732,6 +732,16 @@ class Evaluator:
                 return list(enumerate(self.iterate(args[0]), **kwargs))
             if n == "str" and len(args) == 1 and not isinstance(args[0], (Obj, ClassRef)):
                 return str(args[0])
+            # a NamedTuple class of the repository (any module): built as the equivalent Python namedtuple
+            try:
+                from .model import program as _program
+                _c = _program().classes.get(n)
+            except Exception:
+                _c = None
+            if _c is not None and n not in env:
+                nt = namedtuple_of(_c.node, lambda d: self.expr(d, {}))
+                if nt is not None:
+                    return nt(*args, **kwargs)
             raise Unsupported(f"call {n}")
         if isinstance(f, ast.Attribute):
             if isinstance(f.value, ast.Name) and f.value.id in self.modules and f.value.id not in env:
